@@ -858,16 +858,35 @@ class FuncIntervals:
             return [res.ret_elems.get(i, IV.top()) for i in range(n)]
         return [IV.top()] * n
 
+    def _len_iv(self, a: ast.expr, env: Env, depth: int) -> IV:
+        """len(a): a fact established by a grammar rule, the length of the sequence a slice / single-definition local
+        was taken from minus the slice start, or unknown."""
+        lh = self.world.len_of.get((self.func.qual, unparse(a)))
+        if lh is not None:
+            return lh
+        if depth > 4:
+            return IV(0, None)
+        if isinstance(a, ast.Subscript) and isinstance(a.slice, ast.Slice) and a.slice.step is None and a.slice.upper is None:
+            lo = self.eval(a.slice.lower, env) if a.slice.lower is not None else IV.const(0)
+            base = self._len_iv(a.value, env, depth + 1)
+            if lo.lo is not None and lo.lo == lo.hi and lo.lo >= 0:
+                return IV(None if base.lo is None else max(base.lo - lo.lo, 0), None if base.hi is None else max(base.hi - lo.lo, 0))
+            return IV(0, base.hi)
+        if isinstance(a, ast.Name):
+            defs = [n for n in ast.walk(self.func.node) if isinstance(n, (ast.Assign, ast.AnnAssign, ast.AugAssign, ast.For, ast.NamedExpr, ast.With)) and any(isinstance(x, ast.Name) and x.id == a.id and isinstance(x.ctx, ast.Store) for x in ast.walk(n.target if isinstance(n, (ast.AnnAssign, ast.AugAssign, ast.For, ast.NamedExpr)) else (ast.Tuple(elts=list(n.targets), ctx=ast.Store()) if isinstance(n, ast.Assign) else ast.Tuple(elts=[i.optional_vars for i in n.items if i.optional_vars is not None], ctx=ast.Store()))))]
+            if len(defs) == 1 and isinstance(defs[0], (ast.Assign, ast.AnnAssign)) and defs[0].value is not None and a.id not in self.func.params:
+                tg = defs[0].targets[0] if isinstance(defs[0], ast.Assign) and len(defs[0].targets) == 1 else getattr(defs[0], "target", None)
+                if isinstance(tg, ast.Name):
+                    return self._len_iv(defs[0].value, env, depth + 1)
+        return IV(0, None)
+
     def _call_iv(self, e: ast.Call, env: Env) -> IV:
         d = unparse(e.func)
         if d == "len":
             k = self._key(e)
             if k is not None and k in env:
                 return env[k].meet(IV(0, None))
-            lh = self.world.len_of.get((self.func.qual, unparse(e.args[0]))) if e.args else None
-            if lh is not None:
-                return lh
-            return IV(0, None)
+            return self._len_iv(e.args[0], env, 0) if e.args else IV(0, None)
         if d == "int.from_bytes" and e.args:
             signed = any(kw.arg == "signed" and isinstance(kw.value, ast.Constant) and kw.value.value for kw in e.keywords)
             w = self._slice_width(e.args[0], env)
